@@ -1,6 +1,6 @@
 (* C19 -- coupled logistic-map network stays inside the unit interval. *)
 From Coq Require Import List QArith.
-From CE Require Import Model.Logistic Proofs.LogisticProofs.
+From CE Require Import Model.Logistic Proofs.LogisticProofs Proofs.LogisticExtra.
 Open Scope Q_scope.
 
 Theorem C19_logistic_map_preserves_unit_interval : forall r x, 0 <= r -> r <= 4 -> in_unit x -> in_unit (fmap r x).
@@ -29,3 +29,21 @@ Theorem C19_pinned_orientation_refuted : exists W x, Forall in_unit x /\
   (forall j, qsum (map (fun row => nth j row 0) W) <= 1) /\ ~ Forall in_unit (step 4 1 W x).
 Proof. exact pinned_refuted. Qed.
 Print Assumptions C19_pinned_orientation_refuted.
+
+(* the parameter range of the property is sharp: for every r outside [0,4] the logistic map
+   already sends the unit-interval state 1/2 outside [0,1] *)
+Theorem C19_range_of_r_is_sharp_above : forall r, 4 < r -> in_unit (1 # 2) /\ ~ in_unit (fmap r (1 # 2)).
+Proof. exact fmap_escapes_above. Qed.
+Print Assumptions C19_range_of_r_is_sharp_above.
+
+Theorem C19_range_of_r_is_sharp_below : forall r, r < 0 -> in_unit (1 # 2) /\ ~ in_unit (fmap r (1 # 2)).
+Proof. exact fmap_escapes_below. Qed.
+Print Assumptions C19_range_of_r_is_sharp_below.
+
+(* shape of every trajectory: steps+1 rows, each with one value per node, starting at x0 *)
+Theorem C19_trajectory_shape : forall r s W steps x0, length W = length x0 ->
+  length (traj r s W x0 steps) = S steps /\
+  Forall (fun row => length row = length x0) (traj r s W x0 steps) /\
+  hd nil (traj r s W x0 steps) = x0.
+Proof. intros r s W steps x0 H. exact (conj (traj_length r s W steps x0) (conj (traj_rows_length r s W steps x0 H) (traj_head r s W steps x0))). Qed.
+Print Assumptions C19_trajectory_shape.
